@@ -1,5 +1,6 @@
 /* glue.c — compiled four times (-DHX_P=1..4 for s,d,c,z): typed wrappers behind a common vtable. */
 #if HX_P == 1
+#include <string.h>
 #include "slu_mt_sdefs.h"
 #define PX(n) ps##n
 #define X(n)  s##n
@@ -67,7 +68,12 @@ static void g_gssvx(int_t np, superlumt_options_t *o, SuperMatrix *A, int_t *pc,
 static void g_gstrf_init(int_t np, fact_t f, trans_t t, yes_no_t refact, int_t panel, int_t relax, double u, yes_no_t usepr,
                          double drop, int_t *pc, int_t *pr, void *work, int_t lwork, SuperMatrix *A, SuperMatrix *AC,
                          superlumt_options_t *o, Gstat_t *gs)
-{ PX(gstrf_init)(np, f, t, refact, panel, relax, (REAL)u, usepr, drop, pc, pr, work, lwork, A, AC, o, gs); }
+{
+    /* the options structure is an output of p?gstrf_init: hand it over with arbitrary content (a first-time call sets every field it
+       later relies on; a refactorization reuses the arrays stored in it by the first call) */
+    if (refact == NO) memset(o, 0x7F, sizeof *o);
+    PX(gstrf_init)(np, f, t, refact, panel, relax, (REAL)u, usepr, drop, pc, pr, work, lwork, A, AC, o, gs);
+}
 
 static void g_gstrf(superlumt_options_t *o, SuperMatrix *AC, int_t *pr, SuperMatrix *L, SuperMatrix *U, Gstat_t *gs, int_t *info)
 { PX(gstrf)(o, AC, pr, L, U, gs, info); }
